@@ -141,7 +141,7 @@ def check_labels(rep, tier):
         except Exception as ex:  # noqa: BLE001
             got = "%s: %s" % (type(ex).__name__, str(ex)[:80])
         if got != c["back"]:
-            rep.violation("label:block-param-round-trip:%s" % label_class(c["label"]),
+            rep.violation("label:round-trip:%s" % label_class(c["label"]),
                           "b.p.xsType = %r; b.p.xsTypeNum = b.p.xsTypeNum restores %r" % (c["label"], got),
                           {"direction": "case", "part": "labels", "case": c})
     for e in envs:
@@ -364,7 +364,7 @@ def check_rep(rep, tier, seed):
     outcomes = {}
     for fam in sorted(by_fam):
         cs = by_fam[fam]
-        cap = None if thorough else REP_QUICK_SAMPLE.get(fam, 1500)
+        cap = (60000 if thorough else REP_QUICK_SAMPLE.get(fam, 1500)) // (3 if _SELFTEST else 1)
         if cap is not None and len(cs) > cap:
             cs = rng.sample(cs, cap)
         for c in cs:
@@ -645,7 +645,9 @@ def mgr_key(scn, d):
     field = fd.split(":")[0]
     if field == ".exception":
         field = ".exception.%s.%s" % (fd.split(":")[1].split()[0], d.get("where", "?"))
-    return "mgr:%s:%s:%s" % (scn, d["action"]["n"], field)
+    # representatives are only written by createRepresentativeBlocks: a difference in them is attributed to that call
+    # even when it is (still) seen after a later action
+    return "mgr:%s:%s:%s" % (scn, "Create" if field.startswith(".reps") else d["action"]["n"], field)
 
 
 MGR_QUICK_EDGES = 1000
@@ -686,7 +688,10 @@ def check_manager(rep, tier, seed):
     ad = ManagerAdapter(scns)
     rng = random.Random(seed * 7919 + 20)
     todo = edges
-    if not thorough and len(edges) > MGR_QUICK_EDGES:
+    if _SELFTEST:
+        calls = [e for e in edges if e["path"][-1]["n"] in ("Make", "Create")]
+        todo = rng.sample(calls, 400)
+    elif not thorough and len(edges) > MGR_QUICK_EDGES:
         # environment edits are exercised by the longer behaviours anyway: keep every edge that ends with a manager call
         calls = [e for e in edges if e["path"][-1]["n"] in ("Make", "Create")]
         todo = calls if len(calls) <= MGR_QUICK_EDGES else rng.sample(calls, MGR_QUICK_EDGES)
@@ -765,7 +770,7 @@ def manager_traces(ad, scns, ntraces, nev, seed):
 
 def check_traces(rep, tier, seed, ad, scns):
     thorough = tier == "thorough"
-    traces = manager_traces(ad, scns, 240 if thorough else 60, 24 if thorough else 14, seed)
+    traces = manager_traces(ad, scns, 240 if thorough else 24 if _SELFTEST else 60, 24 if thorough else 14, seed)
     bad, stats = tracecheck.validate("XsGroups_trace", "XsGroups_trace.cfg", MODDIR, traces, timeout=3000)
     rep.add_tlc("trace-validation:XsGroups_trace.cfg", stats["tlc"])
     rep.add_traces("manager-histories", len(traces), sum(len(t["ev"]) for t in traces),
@@ -796,13 +801,257 @@ def run(rep, tier, seed):
     check_rep(rep, tier, seed)
     ad, scns = check_manager(rep, tier, seed)
     check_traces(rep, tier, seed, ad, scns)
+    rep.extra["tolerances"] = {"rtol": RTOL, "atol": ATOL, "why": "each average is a handful of double operations; model zeros are sums of products with 0.0"}
+    rep.assume(
+        "admissible type labels: the 52 letters of _ALLOWABLE_XS_TYPE_LIST and all 52*52 pairs of them (Block.getMicroSuffix notes)",
+        "weight of a member = (flux or 1) * volume for FluxWeightedAverage, volume otherwise; mixed zero/non-zero flux among the candidates is refused",
+        "nuclide temperature: atoms-weighted over the components holding the nuclide; a held nuclide without atoms anywhere gets the weight*volume mean (1e-50 trace rule)",
+        "averaged burnup: weights massHmBOL * (weight / volume), over the candidates; 0 without heavy metal",
+        "median: candidate at 0-based position n div 2 of the candidates sorted by (burnup*weight, name)",
+        "manager level: envGroupNum/envGroup are bookkeeping that createRepresentativeBlocks/makeCrossSectionGroups refresh and re-label by specification; "
+        "'never changes the blocks' is checked on all other parameters there and on every parameter at collection level (derived-value caches "
+        "such as component p.volume are filled before the baseline fingerprint is taken)",
+        "a core uses one-letter types (with environment groups) or two-letter types (single environment group), not both; two-letter groups are never re-labelled",
+        "temperature-group bounds are never hit exactly (the block temperature is a float quotient); burnup bounds are hit exactly",
+        "blocks: HexBlock with two solid Custom-material Circle components (areas 2 and 3); atomic weights of U235/U238/FE56/NA23 set in-process to 2/3/5/7 "
+        "while representatives are created by component (mass-weighted component temperature); everything else is weight-free",
+        "not modelled: blueprint-only blocks (_getMissingBlueprintBlocks), pre-generated cross sections, the 1-D cylinder/slab collections, lumped fission products",
+    )
 
 
 def replay(payload):
     armi_ready()
-    print(json.dumps(payload.get("case"), indent=1)[:3000])
-    if payload.get("part") == "rep":
+    part = payload.get("part")
+    if part == "rep":
+        print(json.dumps(payload["case"], indent=1)[:3000])
         bad = run_case(payload["case"], Pool(payload.get("name_rev", True)))
         print("no divergence: the case conforms" if not bad else "%s: %s" % bad)
         return 1 if bad else 0
+    if part == "mgr" and payload.get("direction") == "replay":
+        e = payload["edge"]
+        print("scenario %s, behaviour %s" % (e["scn"], json.dumps(e["path"])))
+        d = run_behaviour(ManagerAdapter({e["scn"]: payload["scenario"]}), e)
+        print("no divergence: the behaviour conforms" if not d else json.dumps(d, indent=1, default=str)[:4000])
+        return 1 if d else 0
+    if part == "labels":
+        from armi.physics.neutronics import crossSectionGroupManager as xsgm
+
+        c = payload["case"]
+        num = xsgm.getXSTypeNumberFromLabel(c["label"])
+        try:
+            back = xsgm.getXSTypeLabelFromNumber(num)
+        except Exception as ex:  # noqa: BLE001
+            back = "%s: %s" % (type(ex).__name__, ex)
+        print("label %r -> %r (specification %r) -> %r (specification %r)" % (c["label"], num, c["num"], back, c["back"]))
+        return 0 if (num, back) == (c["num"], c["back"]) else 1
+    print("replay of direction=%s part=%s: see the payload (TLC trace / recorded trace with the first rejected event)" % (
+        payload.get("direction"), part))
     return 0
+
+
+def selftest():
+    """In-process mutants of the anchored code; each must be detected by the cases, the replayed edges or the traces."""
+    global _SELFTEST
+    from harness.report import Report
+    from harness.selftest import patched, run_mutants
+
+    armi_ready()
+    import numpy as np
+
+    from armi.physics.neutronics import crossSectionGroupManager as xsgm
+    from armi.physics.neutronics import crossSectionSettings as xss
+    from armi.reactor import blocks as blocksmod
+
+    _SELFTEST = True
+    BC, AVG, MED, MGR = xsgm.BlockCollection, xsgm.AverageBlockCollection, xsgm.MedianBlockCollection, xsgm.CrossSectionGroupManager
+
+    def detect():
+        rep = Report("C20", "quick", 0)
+        run(rep, "quick", 0)
+        return [v["key"] for v in rep.violations]
+
+    def weight_no_volume(self, block):
+        return 1.0 if not self.weightingParam else (block.p[self.weightingParam] or 1.0)
+
+    def weight_volume_twice(self, block):
+        vol = block.getVolume() or 1.0
+        w = 1.0 if not self.weightingParam else (block.p[self.weightingParam] or 1.0)
+        return w * vol * vol
+
+    def weight_flux_ignored(self, block):
+        return block.getVolume() or 1.0
+
+    def candidates_all(self):
+        return list(self)
+
+    def median_lower(self):
+        info = sorted((b.p.percentBu * self.getWeight(b), b.getName(), b) for b in self.getCandidateBlocks())
+        return info[(len(info) - 1) // 2][-1]
+
+    def median_unweighted(self):
+        info = sorted((b.p.percentBu, b.getName(), b) for b in self.getCandidateBlocks())
+        return info[len(info) // 2][-1]
+
+    def avg_by_count(self):
+        nuclides = self.allNuclidesInProblem
+        blocks = self.getCandidateBlocks()
+        weights = np.array([self.getWeight(b) for b in blocks])
+        weights /= len(weights)  # the slip: normalised by the number of members instead of the total weight
+        ndens = weights.dot([b.getNuclideNumberDensities(nuclides) for b in blocks])
+        return dict(zip(nuclides, ndens))
+
+    def nuctemp_unweighted(self):
+        nvt = np.zeros(len(self.allNuclidesInProblem))
+        nv = np.zeros(len(self.allNuclidesInProblem))
+        for block in self.getCandidateBlocks():
+            a, b = xsgm.getBlockNuclideTemperatureAvgTerms(block, self.allNuclidesInProblem)
+            nvt += a
+            nv += b
+        return nvt, nv
+
+    def burnup_volume_weighted(self):
+        tot = wb = 0.0
+        for b in self.getCandidateBlocks():
+            w = self.getWeight(b)
+            tot += w
+            wb += w * b.p.percentBu
+        return 0.0 if tot == 0.0 else wb / tot
+
+    def comp_temp_not_mass_weighted(self, compIndex):
+        blocks = self.getCandidateBlocks()
+        weights = np.array([self.getWeight(b) / b.getHeight() for b in blocks])
+        weights /= weights.sum()
+        comps = [sorted(b.getComponents())[compIndex] for b in blocks]
+        return weights.dot(np.array([c.temperatureInC for c in comps]))
+
+    def comp_temp_volume_twice(self, compIndex):
+        blocks = self.getCandidateBlocks()
+        weights = np.array([self.getWeight(b) for b in blocks])  # not divided by the height: volume counted twice
+        weights /= weights.sum()
+        comps = [sorted(b.getComponents())[compIndex] for b in blocks]
+        m = sum(w * c.getMass() for w, c in zip(weights, comps))
+        if m == 0.0:
+            return np.mean(np.array([c.temperatureInC for c in comps]))
+        return weights.dot(np.array([c.temperatureInC * c.getMass() for c in comps])) / m
+
+    def comp_dens_volume_twice(self, compIndex):
+        nuclides = self.allNuclidesInProblem
+        blocks = self.getCandidateBlocks()
+        comps = [sorted(b.getComponents())[compIndex] for b in blocks]
+        weights = np.array([self.getWeight(b) * c.getVolume() for b, c in zip(blocks, comps)])
+        weights /= weights.sum()
+        return dict(zip(nuclides, weights.dot([c.getNuclideNumberDensities(nuclides) for c in comps])))
+
+    def similarity_always(self):
+        return True
+
+    def weight_check_all_members(self):
+        if self.weightingParam is None:
+            return
+        weights = [b.p[self.weightingParam] for b in self]
+        if any(weights) and not all(weights):
+            raise ValueError("{0} has a mixture of zero and non-zero weighting factors (`{1}`)".format(self, self.weightingParam))
+
+    orig_terms = xsgm.getBlockNuclideTemperatureAvgTerms
+
+    def temp_terms_no_trace(block, allNucNames):
+        vol = block.getVolume()
+        comps, fracs = zip(*block.getVolumeFractions())
+        nd = np.array([[c.p.numberDensities.get(n, 0.0) for n in allNucNames] for c in comps])
+        nv = nd.T * np.array(fracs) * vol
+        return sum((nv * np.array([c.temperatureInC for c in comps])).T), sum(nv.T)
+
+    def new_block_no_copy(self):
+        return self.getCandidateBlocks()[0]
+
+    def no_weight_check(self):
+        return None
+
+    orig_update = MGR._updateEnvironmentGroups
+
+    def env_strict_bound(self, blockList):
+        saved = self._buGroupBounds
+        self._buGroupBounds = [b - 1e-9 for b in saved]  # bu <= upper  becomes  bu < upper
+        try:
+            orig_update(self, blockList)
+        finally:
+            self._buGroupBounds = saved
+
+    def env_formula_swapped(self, blockList):
+        orig_update(self, blockList)
+        nb, nt = len(self._buGroupBounds), len(self._tempGroupBounds)
+        if self._envGroupUpdatesEnabled and not (nb == 1 and nt == 1):
+            for b in blockList:
+                t, u = divmod(b.p.envGroupNum, nb)
+                b.p.envGroupNum = u * nt + t
+
+    def alt_last(self, missingXsType):
+        out = None
+        for otherXsID in self.representativeBlocks:
+            if otherXsID[0] == missingXsType:
+                out = otherXsID[1]
+        return out
+
+    def no_relabel(self, blockCollectionsByXsGroup):
+        return None
+
+    orig_getitem = xss.XSSettings.__getitem__
+
+    def settings_inherit_any(self, xsID):
+        if xsID in self:
+            return dict.__getitem__(self, xsID)
+        same = [o for o in self.values() if o.xsType == xsID[0]]
+        return sorted(same, key=lambda o: o.envGroup)[0] if same else self._getDefault(xsID)
+
+    def number_sum(label):
+        return sum(ord(c) for c in label) if len(label) > 1 else ord(label)
+
+    def label_first_only(number):
+        return chr(number) if number <= ord("z") else chr(int(str(number)[: 3 if str(number)[0] == "1" else 2]))
+
+    def suffix_no_env(self):
+        return self.p.xsType + "A" if len(self.p.xsType) == 1 else self.p.xsType
+
+    def group_first_wins(self, blockCollectionsByXsGroup, blockList):
+        self._updateEnvironmentGroups(blockList)
+        for b in blockList:
+            xsID = b.getMicroSuffix()
+            if xsID not in blockCollectionsByXsGroup:
+                blockCollectionsByXsGroup[xsID] = xsgm.blockCollectionFactory(self._initializeXsID(xsID), self.r.blueprints.allNuclidesInProblem)
+            if len(blockCollectionsByXsGroup[xsID]) < 2:
+                blockCollectionsByXsGroup[xsID].append(b)
+        return blockCollectionsByXsGroup
+
+    P = patched
+    mutants = [
+        ("getWeight without the volume (weights = flux only / plain mean)", lambda: P(BC, "getWeight", weight_no_volume)),
+        ("getWeight applies the volume twice", lambda: P(BC, "getWeight", weight_volume_twice)),
+        ("getWeight ignores the weighting parameter", lambda: P(BC, "getWeight", weight_flux_ignored)),
+        ("getCandidateBlocks returns every member (ineligible included)", lambda: P(BC, "getCandidateBlocks", candidates_all)),
+        ("_getMedianBlock takes the lower median (index off by one)", lambda: P(MED, "_getMedianBlock", median_lower)),
+        ("_getMedianBlock sorts by unweighted burnup", lambda: P(MED, "_getMedianBlock", median_unweighted)),
+        ("_getAverageNumberDensities normalises by the member count", lambda: P(AVG, "_getAverageNumberDensities", avg_by_count)),
+        ("_getNucTempHelper ignores the block weights", lambda: P(AVG, "_getNucTempHelper", nuctemp_unweighted)),
+        ("_calcWeightedBurnup weights by volume, not heavy metal", lambda: P(BC, "_calcWeightedBurnup", burnup_volume_weighted)),
+        ("_getAverageComponentTemperature not mass weighted", lambda: P(AVG, "_getAverageComponentTemperature", comp_temp_not_mass_weighted)),
+        ("_getAverageComponentTemperature keeps the volume in the block weight", lambda: P(AVG, "_getAverageComponentTemperature", comp_temp_volume_twice)),
+        ("_getAverageComponentNumberDensities weights by component volume too", lambda: P(AVG, "_getAverageComponentNumberDensities", comp_dens_volume_twice)),
+        ("_checkBlockSimilarity always true (by component despite different flags)", lambda: P(AVG, "_checkBlockSimilarity", similarity_always)),
+        ("_checkValidWeightingFactors looks at all members, not the candidates", lambda: P(BC, "_checkValidWeightingFactors", weight_check_all_members)),
+        ("getBlockNuclideTemperatureAvgTerms without the trace for zero densities", lambda: P(xsgm, "getBlockNuclideTemperatureAvgTerms", temp_terms_no_trace)),
+        ("_getNewBlock returns the first candidate itself (core block modified)", lambda: P(BC, "_getNewBlock", new_block_no_copy)),
+        ("_checkValidWeightingFactors accepts mixed zero/non-zero flux", lambda: P(BC, "_checkValidWeightingFactors", no_weight_check)),
+        ("_updateEnvironmentGroups: bu < upper instead of <=", lambda: P(MGR, "_updateEnvironmentGroups", env_strict_bound)),
+        ("_updateEnvironmentGroups: number = buGroup * numTemp + tempGroup", lambda: P(MGR, "_updateEnvironmentGroups", env_formula_swapped)),
+        ("_getAlternateEnvGroup returns the last represented group", lambda: P(MGR, "_getAlternateEnvGroup", alt_last)),
+        ("_modifyUnrepresentedXSIDs does nothing", lambda: P(MGR, "_modifyUnrepresentedXSIDs", no_relabel)),
+        ("XSSettings.__getitem__ inherits from any group of the type", lambda: P(xss.XSSettings, "__getitem__", settings_inherit_any)),
+        ("getXSTypeNumberFromLabel adds the character codes (collisions)", lambda: P(xsgm, "getXSTypeNumberFromLabel", number_sum)),
+        ("getXSTypeLabelFromNumber drops the second letter", lambda: P(xsgm, "getXSTypeLabelFromNumber", label_first_only)),
+        ("Block.getMicroSuffix ignores the environment group", lambda: P(blocksmod.Block, "getMicroSuffix", suffix_no_env)),
+        ("_addXsGroupsFromBlocks drops the third block of a group", lambda: P(MGR, "_addXsGroupsFromBlocks", group_first_wins)),
+    ]
+    try:
+        return run_mutants(mutants, detect)
+    finally:
+        _SELFTEST = False
